@@ -285,7 +285,6 @@ def run_case(case, ctx):
         u = Unit(sym)
         cls = u.qty_cls
         if t in refdata.QUANTUM:
-            computed = F(u._equiv) if hasattr(u, "_equiv") else None
             n = (refdata.QUANTUM[t] / scale).denominator * 8
             computed = F(Quantity(n, u).convert(cls.ref_unit).amount) / n
         else:
